@@ -7,5 +7,177 @@ static void op_PubkeyCreate(const jv *in, jout *out) {
     jo_int(out, "ret", ret); vh_out_pk33(out, "pk", &pk);
     jo_int(out, "verify", secp256k1_ec_seckey_verify(CTX, key));
 }
+
+/* "usable" = the API accepts the object (an invalid object makes every consumer call the illegal callback);
+ * the probe's own callback invocations are not charged to the call under observation */
+static int vh_pk_usable(const secp256k1_pubkey *pk, unsigned char *b33) {
+    long icb = ICB; size_t l = 33; int r;
+    memset(b33, 0, 33);
+    r = secp256k1_ec_pubkey_serialize(CTX, b33, &l, pk, SECP256K1_EC_COMPRESSED);
+    ICB = icb;
+    return r && l == 33;
+}
+static void vh_obj_open(jout *o, int *saved_first) { *saved_first = o->first; jo_raw(o, "{", 1); o->first = 1; }
+static void vh_obj_close(jout *o, int saved_first) { jo_raw(o, "}", 1); o->first = saved_first; }
+
+/* KeyChain: "key" = initial secret key, "ops" = [{"op":k,"t":[32 bytes or empty]}...].  Every step applies the secret-side
+ * and the public-side API call to the paired state (sk, pk) and logs both sides; the chain stops after a failing step.
+ *   op 1 tweak_add   2 tweak_mul   3 negate   4 x-only normalisation (xonly_from_pubkey / negate if odd)
+ *   op 5 keypair_xonly_tweak_add on the keypair of sk  /  xonly_pubkey_tweak_add (+ tweak_add_check) on pk */
+static void op_KeyChain(const jv *in, jout *out) {
+    unsigned char sk[32], t[32], b33[33], x32[32]; secp256k1_pubkey pk; int cret, sf, first_step = 1;
+    const jv *ops = jv_get(in, "ops"); const jv *c;
+    jv_need(in, "key", sk, 32);
+    memset(&pk, 0xAA, sizeof(pk));
+    cret = secp256k1_ec_pubkey_create(CTX, &pk, sk);
+    jo_int(out, "cret", cret);
+    if (cret) vh_out_pk33(out, "pk0", &pk);
+    jo_key(out, "steps"); jo_raw(out, "[", 1);
+    for (c = (ops && cret) ? ops->child : NULL; c; c = c->next) {
+        long op = jv_int(c, "op", 0); int sret = 0, pret = 0, skok, pkok, par = -1, kpar = -1, chk = -1, have_kp = 0;
+        secp256k1_keypair kp; secp256k1_xonly_pubkey xo; secp256k1_pubkey kpk;
+        unsigned char ox[32], kx[32];
+        if (jv_bytes(c, "t", t, 32) != 32) memset(t, 0, 32);
+        if (op == 1) { sret = secp256k1_ec_seckey_tweak_add(CTX, sk, t); pret = secp256k1_ec_pubkey_tweak_add(CTX, &pk, t); }
+        else if (op == 2) { sret = secp256k1_ec_seckey_tweak_mul(CTX, sk, t); pret = secp256k1_ec_pubkey_tweak_mul(CTX, &pk, t); }
+        else if (op == 3) { sret = secp256k1_ec_seckey_negate(CTX, sk); pret = secp256k1_ec_pubkey_negate(CTX, &pk); }
+        else if (op == 4) {
+            pret = secp256k1_xonly_pubkey_from_pubkey(CTX, &xo, &par, &pk);
+            pret = pret && secp256k1_xonly_pubkey_serialize(CTX, x32, &xo);
+            b33[0] = 2; memcpy(b33 + 1, x32, 32);
+            pret = pret && secp256k1_ec_pubkey_parse(CTX, &pk, b33, 33);
+            sret = par == 1 ? secp256k1_ec_seckey_negate(CTX, sk) : 1;
+        } else if (op == 5) {
+            int kc = secp256k1_keypair_create(CTX, &kp, sk);
+            sret = kc && secp256k1_keypair_xonly_tweak_add(CTX, &kp, t);
+            secp256k1_keypair_sec(CTX, sk, &kp);
+            have_kp = sret;
+            pret = secp256k1_xonly_pubkey_from_pubkey(CTX, &xo, &par, &pk);
+            { secp256k1_pubkey q; pret = pret && secp256k1_xonly_pubkey_tweak_add(CTX, &q, &xo, t); pk = q; }
+            if (pret) {
+                secp256k1_xonly_pubkey xo2; int par2;
+                secp256k1_xonly_pubkey_from_pubkey(CTX, &xo2, &par2, &pk);
+                secp256k1_xonly_pubkey_serialize(CTX, ox, &xo2);
+                chk = secp256k1_xonly_pubkey_tweak_add_check(CTX, ox, par2, &xo, t);
+            }
+        }
+        if (!first_step) jo_raw(out, ",", 1);
+        first_step = 0;
+        vh_obj_open(out, &sf);
+        jo_int(out, "sret", sret);
+        skok = secp256k1_ec_seckey_verify(CTX, sk);
+        jo_int(out, "skok", skok);
+        if (skok) {
+            secp256k1_pubkey cpk;
+            jo_bytes(out, "sk", sk, 32);
+            if (!secp256k1_ec_pubkey_create(CTX, &cpk, sk)) memset(&cpk, 0, sizeof(cpk)); vh_out_pk33(out, "ck", &cpk);
+        }
+        jo_int(out, "pret", pret);
+        pkok = vh_pk_usable(&pk, b33);
+        jo_int(out, "pkok", pkok);
+        if (pkok) jo_bytes(out, "pk", b33, 33);
+        if (op == 4 || op == 5) jo_int(out, "par", par);
+        if (op == 5 && have_kp) {
+            secp256k1_xonly_pubkey kxo;
+            secp256k1_keypair_pub(CTX, &kpk, &kp); vh_out_pk33(out, "kpk", &kpk);
+            secp256k1_keypair_xonly_pub(CTX, &kxo, &kpar, &kp); secp256k1_xonly_pubkey_serialize(CTX, kx, &kxo);
+            jo_bytes(out, "kx", kx, 32); jo_int(out, "kpar", kpar);
+        }
+        if (op == 5 && pret) jo_int(out, "chk", chk);
+        vh_obj_close(out, sf);
+        if (!sret || !pret) break;
+    }
+    jo_raw(out, "]", 1);
+}
+
+static void op_KeypairCreate(const jv *in, jout *out) {
+    unsigned char key[32], sec[32], x[32]; secp256k1_keypair kp; secp256k1_pubkey pk; secp256k1_xonly_pubkey xo; int ret, par = -1;
+    jv_need(in, "key", key, 32);
+    memset(&kp, 0xAA, sizeof(kp));
+    ret = secp256k1_keypair_create(CTX, &kp, key);
+    jo_int(out, "ret", ret);
+    if (ret) {
+        secp256k1_keypair_sec(CTX, sec, &kp); jo_bytes(out, "sk", sec, 32);
+        secp256k1_keypair_pub(CTX, &pk, &kp); vh_out_pk33(out, "pk", &pk);
+        jo_int(out, "xret", secp256k1_keypair_xonly_pub(CTX, &xo, &par, &kp));
+        secp256k1_xonly_pubkey_serialize(CTX, x, &xo); jo_bytes(out, "x", x, 32); jo_int(out, "par", par);
+    } else {
+        secp256k1_keypair_sec(CTX, sec, &kp);
+        jo_int(out, "skok", secp256k1_ec_seckey_verify(CTX, sec));
+    }
+}
+
+#define VH_MAX_KEYS 512
+static secp256k1_pubkey VH_PKS[VH_MAX_KEYS];
+static const secp256k1_pubkey *VH_PKP[VH_MAX_KEYS];
+/* loads "pks" (list of 33/65-byte encodings); returns the count, or -1 if one does not parse */
+static long vh_load_pks(const jv *in) {
+    const jv *a = jv_get(in, "pks"); const jv *c; long n = 0; unsigned char b[80];
+    for (c = a ? a->child : NULL; c; c = c->next) {
+        long l = jv_bytes_v(c, b, sizeof(b));
+        if (n >= VH_MAX_KEYS || l < 0 || !secp256k1_ec_pubkey_parse(CTX, &VH_PKS[n], b, (size_t)l)) return -1;
+        VH_PKP[n] = &VH_PKS[n]; n++;
+    }
+    return n;
+}
+static void op_PubkeyCombine(const jv *in, jout *out) {
+    secp256k1_pubkey r; unsigned char b33[33]; int ret, ok; long n = vh_load_pks(in);
+    jo_int(out, "n", n);
+    if (n < 0) return;
+    memset(&r, 0xAA, sizeof(r));
+    ret = secp256k1_ec_pubkey_combine(CTX, &r, VH_PKP, (size_t)n);
+    jo_int(out, "ret", ret);
+    ok = vh_pk_usable(&r, b33);
+    jo_int(out, "pkok", ok);
+    if (ok) jo_bytes(out, "pk", b33, 33);
+}
+static void op_PubkeyCmp(const jv *in, jout *out) {
+    secp256k1_pubkey a, b; int r;
+    if (!vh_load_pk(in, "a", &a) || !vh_load_pk(in, "b", &b)) { jo_int(out, "pret", 0); return; }
+    jo_int(out, "pret", 1);
+    r = secp256k1_ec_pubkey_cmp(CTX, &a, &b);
+    jo_int(out, "sign", r < 0 ? -1 : (r > 0 ? 1 : 0));
+}
+/* "pks" sorted through the public API; "alias": k > 0 makes every k-th pointer refer to the previous entry's object */
+static void op_PubkeySort(const jv *in, jout *out) {
+    long n = vh_load_pks(in), i, alias = (long)jv_int(in, "alias", 0); int ret; unsigned char b33[33];
+    jo_int(out, "n", n);
+    if (n < 0) return;
+    if (alias > 0) for (i = 1; i < n; i++) if (i % alias == 0) VH_PKP[i] = VH_PKP[i - 1];
+    ret = secp256k1_ec_pubkey_sort(CTX, VH_PKP, (size_t)n);
+    jo_int(out, "ret", ret);
+    jo_key(out, "sorted"); jo_raw(out, "[", 1);
+    for (i = 0; i < n; i++) {
+        size_t l = 33;
+        secp256k1_ec_pubkey_serialize(CTX, b33, &l, VH_PKP[i], SECP256K1_EC_COMPRESSED);
+        if (i) jo_raw(out, ",", 1);
+        jo_bytes_raw(out, b33, 33);
+    }
+    jo_raw(out, "]", 1);
+}
+static void op_XonlyTweakCheck(const jv *in, jout *out) {
+    unsigned char ix[32], t[32], ox[32]; secp256k1_xonly_pubkey xo; int pret; long par = (long)jv_int(in, "par", 0);
+    jv_need(in, "ix", ix, 32); jv_need(in, "t", t, 32); jv_need(in, "ox", ox, 32);
+    pret = secp256k1_xonly_pubkey_parse(CTX, &xo, ix);
+    jo_int(out, "pret", pret);
+    if (pret) jo_int(out, "ret", secp256k1_xonly_pubkey_tweak_add_check(CTX, ox, (int)par, &xo, t));
+}
+/* the internal heap sort on an int array with a counting comparison callback (binds spec/scheme/HeapSort.tla) */
+typedef struct { long ncmp; } vh_hs_count;
+static int vh_hs_cmp(const void *a, const void *b, void *data) {
+    int x = *(const int*)a, y = *(const int*)b; ((vh_hs_count*)data)->ncmp++;
+    return x < y ? -1 : (x > y ? 1 : 0);
+}
+static void op_HsortInts(const jv *in, jout *out) {
+    static int arr[4096]; const jv *a = jv_get(in, "arr"); const jv *c; size_t n = 0, i; vh_hs_count cnt; cnt.ncmp = 0;
+    for (c = a ? a->child : NULL; c && n < 4096; c = c->next) arr[n++] = (int)c->i;
+    secp256k1_hsort(arr, n, sizeof(int), vh_hs_cmp, &cnt);
+    jo_key(out, "sorted"); jo_raw(out, "[", 1);
+    for (i = 0; i < n; i++) { char tmp[24]; sprintf(tmp, i ? ",%d" : "%d", arr[i]); jo_str(out, tmp); }
+    jo_raw(out, "]", 1);
+    jo_int(out, "ncmp", cnt.ncmp);
+}
 #define VH_OPS_KEYS \
-    { "PubkeyCreate", op_PubkeyCreate },
+    { "PubkeyCreate", op_PubkeyCreate }, { "KeyChain", op_KeyChain }, { "KeypairCreate", op_KeypairCreate }, \
+    { "PubkeyCombine", op_PubkeyCombine }, { "PubkeyCmp", op_PubkeyCmp }, { "PubkeySort", op_PubkeySort }, \
+    { "XonlyTweakCheck", op_XonlyTweakCheck }, { "HsortInts", op_HsortInts },
